@@ -362,7 +362,14 @@ func runRenameSweep(deps *Deps, base *Prog, p *Property, kf *KnownFile, verbose 
 					continue
 				}
 			}
-			src, file, ok := renameVariant(base, fn)
+			var src []byte
+			var file string
+			var ok bool
+			if os.Getenv("BSVET_SWEEP_KIND") == "mirror" {
+				src, file, ok = mirrorVariant(base, fn)
+			} else {
+				src, file, ok = renameVariant(base, fn)
+			}
 			if !ok {
 				continue
 			}
@@ -412,4 +419,93 @@ func runRenameSweep(deps *Deps, base *Prog, p *Property, kf *KnownFile, verbose 
 		fmt.Printf("    %-55s %v\n", o.Func, o.Flagged)
 	}
 	return out
+}
+
+// mirrorVariant re-spells fn without changing its meaning: every comparison
+// `a op b` whose operands are free of calls is written `b op' a` (mirrored
+// operator), and every integer `a + b` with call-free operands `b + a`.
+// Used with BSVET_SWEEP_KIND=mirror by the rename sweep driver: a rule whose
+// report changes under this rewriting matches text, not meaning.
+func mirrorVariant(pr *Prog, fn *Func) ([]byte, string, bool) {
+	if fn.Decl == nil || fn.Body == nil {
+		return nil, "", false
+	}
+	pk := fn.Pkg
+	file := pr.Fset.Position(fn.Decl.Pos()).Filename
+	src := pr.Src[file]
+	off := func(p token.Pos) int { return pr.Fset.Position(p).Offset }
+	callFree := func(e ast.Expr) bool {
+		ok := true
+		ast.Inspect(e, func(n ast.Node) bool {
+			switch n.(type) {
+			case *ast.CallExpr, *ast.FuncLit, *ast.UnaryExpr:
+				if u, isU := n.(*ast.UnaryExpr); isU && u.Op != token.ARROW {
+					return true
+				}
+				ok = false
+			}
+			return true
+		})
+		return ok
+	}
+	mirror := map[token.Token]string{token.EQL: "==", token.NEQ: "!=", token.LSS: ">", token.GTR: "<", token.LEQ: ">=", token.GEQ: "<="}
+	// rewrite innermost-first by rendering recursively
+	var render func(e ast.Expr) string
+	render = func(e ast.Expr) string {
+		switch x := e.(type) {
+		case *ast.ParenExpr:
+			return "(" + render(x.X) + ")"
+		case *ast.BinaryExpr:
+			l, r := render(x.X), render(x.Y)
+			if m, ok := mirror[x.Op]; ok && callFree(x.X) && callFree(x.Y) {
+				return r + " " + m + " " + l
+			}
+			if x.Op == token.ADD && callFree(x.X) && callFree(x.Y) {
+				if tv := pk.Info.Types[x]; tv.Type != nil {
+					if b, ok := tv.Type.Underlying().(*types.Basic); ok && b.Info()&types.IsInteger != 0 && tv.Value == nil {
+						// keep precedence: operands of + that are themselves lower precedence cannot occur
+						return r + " + " + l
+					}
+				}
+			}
+			return l + " " + x.Op.String() + " " + r
+		case *ast.UnaryExpr:
+			if x.Op == token.NOT {
+				return "!" + render(x.X)
+			}
+		}
+		return string(src[off(e.Pos()):off(e.End())])
+	}
+	type edit struct {
+		s, e int
+		text string
+	}
+	var edits []edit
+	var visit func(n ast.Node) bool
+	visit = func(n ast.Node) bool {
+		switch x := n.(type) {
+		case *ast.FuncLit:
+			return true
+		case *ast.BinaryExpr:
+			switch x.Op {
+			case token.EQL, token.NEQ, token.LSS, token.GTR, token.LEQ, token.GEQ, token.ADD, token.LAND, token.LOR:
+				t := render(x)
+				if t != string(src[off(x.Pos()):off(x.End())]) {
+					edits = append(edits, edit{off(x.Pos()), off(x.End()), t})
+				}
+				return false
+			}
+		}
+		return true
+	}
+	ast.Inspect(fn.Body, visit)
+	if len(edits) == 0 {
+		return nil, "", false
+	}
+	sort.Slice(edits, func(i, j int) bool { return edits[i].s > edits[j].s })
+	out := append([]byte{}, src...)
+	for _, e := range edits {
+		out = append(append(append([]byte{}, out[:e.s]...), e.text...), out[e.e:]...)
+	}
+	return out, file, true
 }
